@@ -44,8 +44,14 @@ def hk_trace_prepare(a, b, ta, tb, sy, label):
 
     got, rec = hkspy.observe_eq(a, b)
     order = [sy(c) for c in a.input_symbols]
-    ties = [[el(x), el(y)] for x, y in rec.first_wins]
-    calls = [[el(x), el(y)] for x, y in rec.calls]
+    try:
+        ties = [[el(x), el(y)] for x, y in rec.first_wins]
+        calls = [[el(x), el(y)] for x, y in rec.calls]
+    except (KeyError, TypeError, ValueError, IndexError) as e:
+        # the loop handled something that is not a state (set) of the operand it is tagged with: there is no schedule
+        # to run the mirror model under; reported as a difference of the run (the answers are judged on their own)
+        what = f"union-find was called on an element that does not belong to its operand ({type(e).__name__}: {e}); calls {rec.calls!r:.300}"
+        return None, (lambda ctx, answer, eq_outcome: [what])
 
     def judge(ctx, answer, eq_outcome):
         m_res, m_log = answer
@@ -92,9 +98,10 @@ def check_pair(ctx, a, b, tag, defs=None):
     # the run of the loop itself: union calls seen by a spy on networkx's UnionFind against the mirror model driven
     # by the schedule the implementation actually used (symbol iteration order, tie-breaks); both argument orders
     trace_problems = []
-    if traces[0][0]:
-        trace_problems += traces[0][1](ctx, trace_ans[0], got["eq"])
-        trace_problems += traces[1][1](ctx, trace_ans[1], got["eq_rev"])
+    rest = list(trace_ans)
+    for (item, judge), key in zip(traces, ("eq", "eq_rev")):
+        if judge:
+            trace_problems += judge(ctx, rest.pop(0) if item else None, got[key])
     da, db = DFA.from_nfa(a), DFA.from_nfa(b)
     if got["eq"][0] == "ok" and (da == db) != got["eq"][1]:
         problems.append(f"== on the NFAs is {got['eq'][1]} but == on their determinisations is {da == db}")
